@@ -32,8 +32,17 @@ theorem advertised_implies_compiled : Generated.advertised = true → Generated.
 theorem api_sites_bracketed : ∀ a ∈ Generated.apiSites, a.locks = true ∧ a.callsLkd = true ∧ a.unlocks = true := by
   decide
 
-/-- every invocation of an application-supplied function goes through one of the coap_lock_callback* macros -/
-theorem callback_sites_wrapped : ∀ c ∈ Generated.callbackSites, c.wrapped = true := by
+/- Full statement — every invocation of an application-supplied function pointer goes through one of the
+   coap_lock_callback* macros:
+     theorem callback_sites_wrapped : ∀ c ∈ Generated.callbackSites, c.wrapped = true
+   It is FALSE on the current tree (open finding `unwrapped-aux-callback`, KNOWN_FINDINGS.txt): the observe-persistence
+   tracking callbacks (coap_persist_track_funcs), the OSCORE save_seq_num_func and two GnuTLS set-up callbacks are invoked
+   under the lock without `in_callback++`, so a public-API call from inside them self-deadlocks.  Witness: -/
+example : ∃ c ∈ Generated.callbackSites, c.listed = false ∧ c.wrapped = false := by decide
+
+/-- every invocation of a callback of the types the property enumerates (request, response, NACK, event, ping and pong
+handlers) goes through one of the coap_lock_callback* macros -/
+theorem callback_sites_wrapped_partial : ∀ c ∈ Generated.callbackSites, c.listed = true → c.wrapped = true := by
   decide
 
 /-- the scan saw something -/
